@@ -4,7 +4,7 @@ import sockgen as G
 
 RULE = ("family proxy: ProxyHandler between a client on SimTcp and a scripted upstream server on the loopback interface; all methods x "
         "paths with unreserved, percent-encoded reserved, space, CR/LF and non-ASCII characters x query strings (incl. fragments) x header "
-        "sets (duplicates, pre-existing X-Forwarded-For / X-Real-IP, case variants) x bodies x the number of body segments that arrive "
+        "sets (duplicates, pre-existing X-Forwarded-For / X-Real-IP, case variants) x bodies (a few bytes, and single arrivals of 65 KiB..100 KB) x the number of body segments that arrive "
         "before the upstream connection completes; non-trivial = distinct case")
 ASSUMPTIONS = ["request targets are in the C01 class or tabulated by QUrl", "the client's address is the SimTcp peer address 10.1.2.3"]
 TRUSTED = ["the upstream server is a QTcpServer in the harness; the kernel's loopback TCP carries the bytes"]
@@ -46,3 +46,14 @@ def cases(tier, seed, ctx=None):
         k = rng.range(0, len(segs))
         resp = [[0, b"HTTP/1.1 200 OK\r\nContent-Length: 2\r\n\r\nok"], [1]]
         yield ("proxy", [head, segs, k, resp, 0, G.env_for(ver, tab, [raw]), [12, raw, body if declared else b""]], "request")
+    # large bodies: single arrivals above any plausible internal block size (16 KiB, 64 KiB), before and after the connect
+    nl = 6 if tier == "quick" else 40
+    ver, tab = G.oracle(ctx, [b"/up"])
+    for j in range(nl):
+        sizes = rng.choice([[100000], [1000, 100000], [70000, 70000], [20000, 66000, 5], [100000, 100000, 100000], [65536, 65537]])
+        segs = [rng.bytes(z) for z in sizes]
+        body = b"".join(segs)
+        head = b"POST /up HTTP/1.1\r\nHost: h\r\nContent-Length: %d" % len(body)
+        k = rng.range(0, len(segs) - 1) if j % 3 else 0
+        resp = [[0, b"HTTP/1.1 200 OK\r\nContent-Length: 2\r\n\r\nok"], [1]]
+        yield ("proxy", [head, segs, k, resp, 0, G.env_for(ver, tab, [b"/up"]), [12, b"/up", body]], "large-body")
